@@ -540,6 +540,7 @@ def check_C20(tier):
              label="all interleavings of read-only processes: Frozen (action property), Repeatable, SortedOut")
     c.mc("MC_Immutable", "MC_C20.cfg", dict(Keys="K_312", Ops="Ops_it", Deviations='{"SortInPlace"}'),
          expect_violation=["Frozen", "Repeatable", "SortedOut"], label="sensitivity: SortInPlace")
+    session_part(c, "C20", q)
     tr = c.drive("immutable", 1 if q else 0)
     c.validate("immutable", "TraceImmutable", "TraceImmutable.cfg", tr, timeout=3000,
                rule="every insertion order of %d argument/metadata keys x constructed/decoded tokens x every sequence of <=2 of 15 read-only "
@@ -599,13 +600,36 @@ CHAIN = {
     "C03": dict(q=["MC_C03_q.cfg", "MC_C03_q2.cfg"], t=["MC_C03_t.cfg", "MC_C03_t2.cfg", "MC_C03_q2.cfg"], dev=None,
                 rule="every distribution of acceptance sets over the statement slots of every link x argument point x hook; "
                      "non-trivial = some statement rejects the (hooked) arguments"),
-    "C04": dict(q="MC_C04_q.cfg", t=["MC_C04_t.cfg"], dev=None,
+    "C04": dict(q=["MC_C04_q.cfg", "MC_C04_far.cfg"], t=["MC_C04_t.cfg", "MC_C04_far.cfg"], dev=None,
                 rule="every combination of present/absent/inverted bounds on invocation and links x probe instants 1,3,5 (Tick); "
                      "non-trivial = some token invalid at the probe instant"),
-    "C05": dict(q="MC_C05_q.cfg", t=["MC_C05_t.cfg", "MC_C05_t2.cfg"], dev='{"AudAsSubject"}',
+    "C05": dict(q=["MC_C05_q.cfg", "MC_C05_far.cfg"], t=["MC_C05_t.cfg", "MC_C05_t2.cfg", "MC_C05_far.cfg"], dev='{"AudAsSubject"}',
                 rule="constructively generated conforming chains (repeated principals, attenuating commands, satisfiable policies, "
                      "valid windows, irrelevant fields free); non-trivial = every rule holds (must be allowed)"),
 }
+
+
+def session_part(c, pid, q):
+    """Session.tla: the same token objects validated repeatedly (other instants, other hooks)."""
+    fams = []
+    if pid in ("C04", "C05", "C20"):
+        fams.append(("MC_Session_T.cfg", dict(Links="ST_Links1" if (pid == "C20" and q) else "ST_Links"), "ChainCached",
+                     "time family: bounds of invocation and <=2 links free over {none, 2, 4}; 3 checks of the same token objects at "
+                     "real instants 1 <= t1 <= t2 <= t3 <= 5 (the harness sleeps between them)"))
+        if not q and pid != "C20":
+            fams.append(("MC_Session_T.cfg", dict(Links="ST_Links3"), "VerdictCached", "time family, chains of <=3 links"))
+    if pid in ("C03", "C05", "C20"):
+        fams.append(("MC_Session_H.cfg", dict(MaxChecks=2 if q else 3), "ArgsMemoised",
+                     "hook family: policies of <=2 links and the invocation's arguments free; %d checks of the same token with every "
+                     "sequence of hooks from {none, id, c0, c1, c2, empty}" % (2 if q else 3)))
+    for cfg, consts, dev, rule in fams:
+        cp = c.case_path(pid + "sess")
+        c.mc("MC_Session", cfg, dict(Deviations="{}", Emit="SEmit", **consts), timeout=1500, case_file=cp,
+             label="Session: every check returns what a fresh token would return (Historyless)")
+        c.replay("session:" + pid, cp, rule="Session.tla " + rule + "; non-trivial = the property forbids / demands the outcome")
+        os.remove(cp)
+        c.mc("MC_Session", cfg, dict(Deviations='{"%s"}' % dev, Emit="", **dict(consts, **({"Links": "ST_Links1"} if "Links" in consts else {"MaxChecks": 2}))),
+             expect_violation=["Historyless"], label="sensitivity: memo state on the token (%s) breaks Historyless" % dev)
 
 
 def check_chain(pid):
@@ -635,6 +659,23 @@ def check_chain(pid):
             c.validate("authority", "TraceAuthority", "TraceAuthority.cfg", tr, cfg_constants=dict(Prop=pid),
                        rule="random public stores of <=4 real delegations (any issuer/audience/subject incl. powerline, 4 commands, 4 policies) x "
                             "3 invocations; EVERY proof list over the store tried on the real code; judged against Authority!Backed")
+        session_part(c, pid, q)
+        if pid in ("C03", "C05"):
+            tr = c.drive("catalogue", 1)
+            c.validate("catalogue", "TracePolicy", "TracePolicy.cfg", tr,
+                       rule="the policy catalogue that stands for the acceptance sets (63 statements of every kind, incl. slices of non-ASCII "
+                            "strings, negative indexes, nested maps, optional selectors) on the 4 argument points: the real matcher's answers "
+                            "judged by TracePolicy (Policy.tla is the meaning of the catalogue)")
+        if pid == "C04":
+            r = c.mc("Window", "MC_Window.cfg", dict(MaxTick=8 if q else 12, Deviations="{}", Emit="Emit"), timeout=900,
+                     label="one token's window at quarter-second resolution and at the far ends of the time line: IsValidAt shape = Inside/Outside")
+            for dev in ("SecondResolution", "NanoWrap", "NbfIgnoredWithExp"):
+                c.mc("Window", "MC_Window.cfg", dict(MaxTick=8, Deviations='{"%s"}' % dev, Emit=""), expect_violation="WindowOK",
+                     label="sensitivity: " + dev)
+            c.replay("validat", r.cases, rule="every (token type, built / unsealed, nbf, exp, probe) over quarter-second ticks of a %d s span plus "
+                     "bounds and probes around 4 far-future and 4 far-past anchors (end/start of the int64 nanosecond range, years 3000/9999/1000, "
+                     "the epoch, +/-2^53 s); probes next to a bound are refined to 1 ns / 1 us / 1 ms from it; real delegation.IsValidAt / "
+                     "invocation.IsValidAt; non-trivial = outside the window or far anchors" % (2 if q else 3))
         tr = c.drive("chainfix", 300 if q else 6000)
         c.validate("chainfix", "TraceChain", "TraceChain.cfg", tr, rule="the repository's fixture store: all proof lists of length <=2 "
                    "and sampled longer ones, every persona/command/argument set", cfg_constants=dict(Prop=pid))
